@@ -334,6 +334,15 @@ def run_shard(ctx):
                         identify_case(ctx, mods, f"syn-{'deep' if deep else 'root'}-{'junk' if junk else 'clean'}-{tname}",
                                       p, markers=set(markers), at_offset0=not junk)
                         os.remove(p)
+    # scale: archives with more members than any per-archive cap one might think of, the markers written last
+    for filler in (9999, 10001, 70000):
+        for markers in (["data.pkl", "constants.pkl", "version"], ["data.pkl"], ["model.json", "constants.pkl"]):
+            i += 1
+            if i % ctx.nshards == ctx.shard and (ctx.tier == "thorough" or filler < 70000 or markers == ["data.pkl"]):
+                p = os.path.join(ctx.scratch, "many_members.zip")
+                torchfiles.synthetic_zip(p, markers, True, filler=filler)
+                identify_case(ctx, mods, f"syn-many-members-{filler}", p, markers=set(markers))
+                os.remove(p)
     # real files
     for name, p in files.items():
         i += 1
